@@ -290,6 +290,7 @@ const preamble = `(declare-sort Str 0)
 (define-fun tdiv ((a Int) (b Int)) Int (ite (>= a 0) (ite (> b 0) (div a b) (- (div a (- b)))) (ite (> b 0) (- (div (- a) b)) (div (- a) (- b)))))
 (define-fun tmod ((a Int) (b Int)) Int (- a (* b (tdiv a b))))
 (declare-fun dyntype (Int) Int)
+(declare-fun chancap (Int) Int)
 (declare-fun str_concat (Str Str) Str)
 (declare-fun bytes2str ((Slc Int)) Str)
 (declare-fun str2bytes (Str) (Slc Int))
@@ -660,12 +661,14 @@ func (d *Decls) zeroValue(t types.Type) string {
 		es := d.sortOf(u.Elem())
 		n := "nilslc_" + sanitize(es)
 		d.declareConst(n+"_arr", "(Array Int "+es+")")
-		_ = s
+		d.declareConst(n+"_inst", s)
 		return "(mk-slc " + n + "_arr 0 0)"
 	case *types.Map:
 		ks, vs := d.sortOf(u.Key()), d.sortOf(u.Elem())
 		n := "nilmap_" + sanitize(ks+"_"+vs)
 		d.declareConst(n+"_val", "(Array "+ks+" "+vs+")")
+		// z3 resolves a parametric constructor only for an instance sort it has seen
+		d.declareConst(n+"_inst", "(Mp "+ks+" "+vs+")")
 		return "(mk-mp ((as const (Array " + ks + " Bool)) false) " + n + "_val 0)"
 	case *types.Array:
 		es := d.sortOf(u.Elem())
